@@ -22,14 +22,18 @@ MANIFEST_ENTRY = dict(
               'evaluated by TLC over observations of real compile() runs through the real runtime',
     text='compile() is called with monomial unitaries (permutation / diagonal / identity / permutation-with-phases tables; 1-3 qubits, 1-2 '
          'qutrits), basis states with a phase, state systems of 1-3 basis->basis pairs with phases, and lists of 2-3 such inputs, for the '
-         'default model and for CZ+RZ+SX / iSWAP+U3 / CNOT+U3 models on line / star / ring graphs, at optimization level 1 (a few at 2; 2-4 '
-         'thorough).  TLC requires: unitary -- the observed table equals the target up to one global phase, every column within the '
+         'default model and for CZ+RZ+SX / iSWAP+U3 / CNOT+U3 models on line / star graphs (one machine wider than the target with coupled '
+         'and one with uncoupled leading qudits), at optimization level 1 (a few at 2 and 4, where level 4 reports permutations through the '
+         'mappings; 1-4 thorough).  TLC requires: unitary -- the observed table equals the target up to one global phase, every column within the '
          'synthesis budget; state -- |0..0> is sent to the target basis state; state system -- every listed input goes to its listed '
          'output with the listed relative phases; list -- one result per input, in the order of the inputs.',
     note='NOT decided: Haar-random / Clifford / near-identity unitaries, GHZ / W / random states, and the distance budget for any target '
          'outside the exact domain (needs real-number linear algebra as the oracle).  Single states are compared up to a global phase; a '
          'state system up to one common phase (the weaker reading).  A case that does not finish within its wall-clock bound is a note, not '
-         'a verdict.  Trusted: TLC, harness/exact.py (own_unitary, discretiser), harness/compile_common.py, harness/sim.py + simcompile.py.',
+         'a verdict.  A call that compile() refuses in its own argument checks (documented ValueError / TypeError) is not a violation; a '
+         'compilation that was accepted and then raised is (clause compile-raised).  Every run ends with an oracle self-test: corrupted '
+         'copies of accepted observations (column moved, phase changed, outside the budget, mapping out of range / repeated, results '
+         'exchanged or missing, status raised) must each be rejected by CompileSem.tla with its clause.  Trusted: TLC, harness/exact.py (own_unitary, discretiser), harness/compile_common.py, harness/sim.py + simcompile.py.',
     ref='DESIGN.md section 4 / C03',
 )
 
